@@ -20,7 +20,7 @@ RULE = ("schemas of depth <= 4 and width <= 6 with identifier keys whose option 
         "and mutated states: the state afterwards must equal 'supplied and not ignored options set to their normal "
         "form and marked user-defined, every other value and flag untouched'; non-trivial = >= 4 paths and >= 1 "
         "command line applied; distinct = distinct (schema, state, command line)")
-REQUIRED = ("schemas_with_names_of_schema_methods_or_odd_underscores", "schema_grown_after_enumeration", "paths_checked", "dotted_assignments_checked", "parsers_compared", "overrides_compared", "argv:empty",
+REQUIRED = ("mode_helper_replaces_an_earlier_field", "rejected_command_lines_applied_again", "schemas_with_names_of_schema_methods_or_odd_underscores", "schema_grown_after_enumeration", "paths_checked", "dotted_assignments_checked", "parsers_compared", "overrides_compared", "argv:empty",
             "argv:bool-on", "argv:bool-off", "argv:bool-both-switches", "argv:value", "argv:repeated", "argv:invalid", "ignore:str", "ignore:list",
             "state:mutated", "depth>=3")
 ASSUMPTIONS = ["enumeration is judged on root schemas / configurations; membership is demanded of stored fields only",
@@ -123,6 +123,18 @@ def generate(rng, ctx):
             names = rng.sample(sorted(supplied), rng.randrange(1, min(3, len(supplied)) + 1))
             ign = names[0] if ignore == "str" else names
         cmdlines.append({"kind": kind, "argv": argv, "supplied": supplied, "ignore": ign})
+    # an application-mode field creates computed is_<mode>_mode helpers; one of those names is already taken by an
+    # ordinary field declared earlier in the same section (the helper replaces it)
+    if rng.random() < 0.15:
+        holders = [schema] + [nd for p, nd in spec.walk(schema) if nd["kind"] == "schema" and "[]" not in p]
+        holder = rng.choice(holders)
+        taken = {ch["key"] for ch in holder["fields"]}
+        if not taken & {"is_dev_mode", "is_prod_mode", "runmode"}:
+            holder["fields"].insert(rng.randrange(len(holder["fields"]) + 1), {"kind": "field", "key": "is_dev_mode", "family": "bool",
+                                                                                 "params": {"default": False}})
+            holder["fields"].append({"kind": "field", "key": "runmode", "family": "appmode",
+                                     "params": {"modes": ["dev", "prod"], "create_helpers": True, "default": "prod"}})
+            schema["helper_collision"] = True
     return {"schema": schema, "state_ops": state_ops, "cmdlines": cmdlines}
 
 
@@ -157,11 +169,38 @@ def _inside_ctype(root, path):
     return False
 
 
+def _expected_view(root):
+    """The schema as it is after the application-mode fields created their computed helpers: a helper replaces an
+    earlier field of the same name (at its position), others are appended."""
+    import copy
+
+    root = copy.deepcopy(root)
+
+    def fix(node):
+        fields = model.fields_of(node)["fields"]
+        for ch in list(fields):
+            if ch["kind"] in ("schema", "ctype"):
+                fix(ch)
+            elif ch["kind"] == "field" and ch["family"] == "appmode" and ch.get("params", {}).get("create_helpers"):
+                for m in ch["params"].get("modes") or model.APPMODES:
+                    name = "is_%s_mode" % m
+                    virt = {"kind": "field", "key": name, "family": "virtual", "params": {"returns": "helper"}}
+                    hit = [i for i, c in enumerate(fields) if c["key"] == name]
+                    if hit:
+                        fields[hit[0]] = virt
+                    else:
+                        fields.append(virt)
+    fix(root)
+    return root
+
+
 def run(case, ctx, res):
     cc = ctx.cc
     env = env_of(ctx)
     drv = history.Driver(ctx, res, case["schema"], env)
-    root, schema, cfg = drv.root, drv.built.schema, drv.cfg
+    root, schema, cfg = _expected_view(drv.root), drv.built.schema, drv.cfg
+    if case["schema"].get("helper_collision"):
+        res.count("mode_helper_replaces_an_earlier_field")
     if case["schema"].get("odd_names"):
         res.count("schemas_with_names_of_schema_methods_or_odd_underscores")
     def check_names(stage):
@@ -327,6 +366,19 @@ def run(case, ctx, res):
             if err is None:
                 res.viol("M-override", "invalid-value-accepted", "command line %r carries an invalid value but the override returned" % (argv,))
                 return
+            # the same rejected command line again: to the same configuration and to a second one built from the schema
+            second = cc.Config(drv.built.schema, key_filename=drv.keyfile)
+            for which, target in (("the same configuration", cfg), ("a second configuration of the schema", second)):
+                try:
+                    cc.cmdline_args_override(target, args, ignore=ign)
+                    again = None
+                except Exception as exc:
+                    again = exc
+                res.count("rejected_command_lines_applied_again")
+                if again is None:
+                    res.viol("M-override", "invalid-value-accepted:second-application", "command line %r was rejected (%s) but accepted when "
+                             "applied again to %s" % (argv, str(err)[:80], which))
+                    return
             continue
         if err is not None:
             res.viol("M-override", "raises", "override with %r (ignore %r) raised %s: %s" % (argv, ign, type(err).__name__, str(err)[:150]))
